@@ -12,10 +12,13 @@
 (*   C16  NoDisclosure                                                     *)
 (* Negative twins (CBug) must be rejected.                                 *)
 (***************************************************************************)
-EXTENDS Browser
+EXTENDS Browser, Json, CSV, IOUtils
 
-CONSTANTS CheckPairs      \* TRUE: also evaluate the (expensive) all-pairs property C10
+CONSTANTS CheckPairs,     \* TRUE: also evaluate the (expensive) all-pairs property C10
+          DumpSems        \* TRUE: write every semantic configuration (binding G of C02) to IOEnv.OUT_FILE
 
+RECURSIVE SetToSeqJ(_)
+SetToSeqJ(S) == IF S = {} THEN <<>> ELSE LET x == CHOOSE x \in S : TRUE IN <<x>> \o SetToSeqJ(S \ {x})
 \* ---------------------------------------------------------------- universe
 NameOrderDef == <<"authorization", "x-a", "x-b", "x-z">>
 AcrhOKElems(s, r) == ApprovedElems(Sorted(s.hNames), r.acrh.lines)     \* element-level approval (byte level: Acrh.tla)
@@ -68,6 +71,11 @@ Next ==
 Spec == Init /\ [][Next]_vars
 
 Complete == stage = 3
+
+\* generator for binding G of C02: every complete semantic configuration, and (once) the intent universe
+DumpSem == IF DumpSems /\ Complete /\ ~dbg /\ ~sem.pass
+             THEN CSVWrite("%1$s", <<ToJson([sem EXCEPT !.meths = SetToSeqJ(sem.meths), !.hNames = SetToSeqJ(sem.hNames)])>>, IOEnv.OUT_FILE)
+             ELSE TRUE
 
 \* ---------------------------------------------------------------- C02
 IntentOrigins == {oA, oB}
